@@ -209,6 +209,14 @@ pub fn eval_damaged(case: &Case) -> Evaluated {
 }
 
 fn content(rng: &mut Rng, max: usize) -> (Vec<u8>, &'static str) {
+    if rng.chance(1, 8) {
+        // incompressible content is stored with 5 bytes of overhead: these sizes put the compressed
+        // length on the width boundaries of its varint (127/128/129, 16383/16384/16385)
+        let n = *rng.pick(&[121usize, 122, 123, 124, 125, 16377, 16378, 16379, 16380]);
+        if n <= max.max(200) {
+            return (rng.bytes(n), "boundary");
+        }
+    }
     let n = match rng.below(6) {
         0 => 0,
         1 => 1,
